@@ -31,7 +31,23 @@ def annotated_base(rng, dt):
         node = {"k": kind, "via": "ctor", "args": [node, other]}
     elif r < 0.4:
         node = {"k": "Product", "via": "fn", "args": [{"k": "ScalarMul", "n": n, "dt": dt, "c": 2.0}, node]}
-    elif r < 0.55 and name in ("SelfAdjoint", "PSD"):
+    elif r < 0.7 and n >= 2:
+        # a slice of a declared operator whose row and column selectors pick the *same index set in another order* (reversed
+        # rows, permuted index arrays): not a principal sub-matrix, so not Hermitian
+        kind_ = S.pick(rng, ["reverse-rows", "reverse-both-one-way", "perm-arrays", "negative-stride"])
+        if kind_ == "reverse-rows":
+            sl = [{"s": [None, None, -1]}, {"s": [0, n, None]}]
+        elif kind_ == "reverse-both-one-way":
+            sl = [{"s": [n - 1, 0, -1]}, {"s": [1, n, None]}]
+        elif kind_ == "negative-stride":
+            sl = [{"s": [None, None, -1]}, {"i": [int(i) for i in range(n)]}]
+        else:
+            idx = [int(i) for i in rng.permutation(n)[:max(2, n - 1)]]
+            sl = [{"i": idx}, {"i": sorted(idx)}]
+            if idx == sorted(idx):
+                sl = [{"i": idx[::-1]}, {"i": idx}]
+        node = {"k": "Sliced", "via": S.pick(rng, ["ctor", "fn"]), "slices": sl, "arg": node}
+    elif r < 0.8 and name in ("SelfAdjoint", "PSD"):
         # a scalar multiple of a declared Hermitian operator: real multiples stay Hermitian, complex ones do not (c A)^H = conj(c) A
         c = S.pick(rng, [-2.0, 0.5] + ([{"re": 1.0, "im": 2.0}, {"re": 0.0, "im": -1.0}, {"re": -0.5, "im": 0.5}] * 2 if dt in P.CPLX else []))
         node = {"k": "Scaled", "c": c, "side": S.pick(rng, ["l", "r"]), "arg": node}
